@@ -38,7 +38,7 @@ def c01(q):
         "jobs": [
             {"sub": "sweep", "cfgs": ["debug", "release"], "cases": 1_000_000, "ms": 0, "shards": 8},
             {"sub": "random", "cfgs": ["debug", "release"], "cases": 120_000 if q else 2_000_000, "ms": 40_000 if q else 400_000},
-            {"sub": "random", "cfgs": ["miri"], "cases": 1500 if q else 30_000, "ms": 50_000 if q else 600_000, "lite": True, "corpus": True, "wall": 300 if q else 1500},
+            {"sub": "random", "cfgs": ["miri"], "cases": 1500 if q else 30_000, "ms": 50_000 if q else 600_000, "lite": True, "corpus": True, "wall": 600 if q else 1800},
         ] + ([] if q else [
             {"sub": "random", "cfgs": ["miri-tb"], "cases": 10_000, "ms": 300_000, "lite": True, "corpus": True, "wall": 900},
             {"sub": "random", "cfgs": ["asan"], "cases": 300_000, "ms": 200_000, "lite": True},
@@ -58,7 +58,7 @@ def c02(q):
         "jobs": [
             {"sub": "sweep", "cfgs": ["debug"], "cases": 1_000_000, "ms": 0, "shards": 8},
             {"sub": "random", "cfgs": ["debug", "release"], "cases": 100_000 if q else 1_500_000, "ms": 40_000 if q else 400_000},
-            {"sub": "random", "cfgs": ["miri"], "cases": 1200 if q else 20_000, "ms": 50_000 if q else 600_000, "corpus": True, "wall": 300 if q else 1500},
+            {"sub": "random", "cfgs": ["miri"], "cases": 1200 if q else 20_000, "ms": 50_000 if q else 600_000, "corpus": True, "wall": 600 if q else 1800},
         ],
     }
 
@@ -70,7 +70,7 @@ def _emplace(q, rule, gates, miri_cases=400):
         "gates": gates,
         "jobs": [
             {"sub": "random", "cfgs": ["debug", "release"], "cases": 150_000 if q else 3_000_000, "ms": 30_000 if q else 300_000},
-            {"sub": "random", "cfgs": ["miri"], "cases": miri_cases if q else 20_000, "ms": 45_000 if q else 600_000, "lite": True, "wall": 300 if q else 1500},
+            {"sub": "random", "cfgs": ["miri"], "cases": miri_cases if q else 20_000, "ms": 45_000 if q else 600_000, "lite": True, "wall": 600 if q else 1800},
         ] + ([] if q else [
             {"sub": "random", "cfgs": ["miri-tb"], "cases": 10_000, "ms": 300_000, "lite": True, "wall": 900},
             {"sub": "random", "cfgs": ["asan"], "cases": 500_000, "ms": 200_000},
@@ -127,7 +127,7 @@ def c04(q):
         "gates": ["mapped", "consts-checked", "field-addresses-compared"],
         "jobs": [
             {"sub": "table", "cfgs": ["debug", "release"], "cases": 1_000_000, "ms": 0, "shards": 8},
-            {"sub": "table", "cfgs": ["miri"], "cases": 1_000_000, "ms": 50_000 if q else 600_000, "wall": 300 if q else 1500},
+            {"sub": "table", "cfgs": ["miri"], "cases": 1_000_000, "ms": 50_000 if q else 600_000, "wall": 600 if q else 1800},
         ],
     }
 
@@ -142,7 +142,7 @@ def c06(q):
         "gates": ["messages", "prefix:err", "prefix:ok", "suffix-message:ok"],
         "jobs": [
             {"sub": "random", "cfgs": ["debug", "release"], "cases": 60_000 if q else 1_000_000, "ms": 30_000 if q else 300_000},
-            {"sub": "random", "cfgs": ["miri"], "cases": 300 if q else 10_000, "ms": 45_000 if q else 600_000, "lite": True, "wall": 300 if q else 1500},
+            {"sub": "random", "cfgs": ["miri"], "cases": 300 if q else 10_000, "ms": 45_000 if q else 600_000, "lite": True, "wall": 600 if q else 1800},
         ],
     }
 
@@ -170,7 +170,7 @@ def _hist(q, rule, gates, miri_cases=120):
         "gates": ["histories"] + gates,
         "jobs": [
             {"sub": "random", "cfgs": ["debug", "release"], "cases": 12_000 if q else 300_000, "ms": 35_000 if q else 400_000},
-            {"sub": "random", "cfgs": ["miri"], "cases": miri_cases if q else 5_000, "ms": 45_000 if q else 600_000, "lite": True, "wall": 300 if q else 1500},
+            {"sub": "random", "cfgs": ["miri"], "cases": miri_cases if q else 5_000, "ms": 45_000 if q else 600_000, "lite": True, "wall": 600 if q else 1800},
         ] + ([] if q else [
             {"sub": "random", "cfgs": ["miri-tb"], "cases": 3_000, "ms": 300_000, "lite": True, "wall": 900},
             {"sub": "random", "cfgs": ["asan"], "cases": 100_000, "ms": 200_000},
@@ -237,8 +237,8 @@ def c07(q):
             {"sub": "random", "cfgs": ["debug", "release"], "cases": 40_000 if q else 1_000_000, "ms": 30_000 if q else 300_000},
             {"sub": "compose", "cfgs": ["debug"], "cases": 30_000 if q else 600_000, "ms": 30_000 if q else 300_000},
             {"sub": "threaded", "cfgs": ["debug"], "cases": 200 if q else 5_000, "ms": 20_000 if q else 120_000, "shards": 4},
-            {"sub": "random", "cfgs": ["miri"], "cases": 150 if q else 5_000, "ms": 40_000 if q else 600_000, "wall": 300 if q else 1500},
-            {"sub": "threaded", "cfgs": ["miri"], "cases": 3 if q else 40, "ms": 40_000 if q else 300_000, "shards": 2, "wall": 300 if q else 900},
+            {"sub": "random", "cfgs": ["miri"], "cases": 150 if q else 5_000, "ms": 40_000 if q else 600_000, "wall": 600 if q else 1800},
+            {"sub": "threaded", "cfgs": ["miri"], "cases": 3 if q else 40, "ms": 40_000 if q else 300_000, "shards": 2, "wall": 600 if q else 1200},
         ],
     }
 
@@ -255,7 +255,7 @@ def c08(q):
             {"sub": "random", "cfgs": ["debug", "release"], "cases": 25_000 if q else 600_000, "ms": 30_000 if q else 300_000},
             {"sub": "compose", "cfgs": ["debug"], "cases": 30_000 if q else 600_000, "ms": 30_000 if q else 300_000},
             {"sub": "sched", "cfgs": ["debug"], "cases": 40_000 if q else 800_000, "ms": 30_000 if q else 300_000},
-            {"sub": "random", "cfgs": ["miri"], "cases": 100 if q else 4_000, "ms": 40_000 if q else 600_000, "wall": 300 if q else 1500},
+            {"sub": "random", "cfgs": ["miri"], "cases": 100 if q else 4_000, "ms": 40_000 if q else 600_000, "wall": 600 if q else 1800},
         ],
     }
 
@@ -273,7 +273,7 @@ def c09(q):
         "jobs": [
             {"sub": "enum", "cfgs": ["debug", "release"], "cases": 40_000 if q else 600_000, "ms": 30_000 if q else 300_000},
             {"sub": "random", "cfgs": ["debug"], "cases": 25_000 if q else 600_000, "ms": 30_000 if q else 300_000},
-            {"sub": "enum", "cfgs": ["miri"], "cases": 150 if q else 4_000, "ms": 40_000 if q else 600_000, "wall": 300 if q else 1500},
+            {"sub": "enum", "cfgs": ["miri"], "cases": 150 if q else 4_000, "ms": 40_000 if q else 600_000, "wall": 600 if q else 1800},
         ],
     }
 
@@ -288,7 +288,7 @@ def c10(q):
         "gates": ["c10:expect:msg", "c10:expect:parse", "c10:expect:read-oom", "c10:expect:closed", "mode:async", "mode:blocking"],
         "jobs": [
             {"sub": "random", "cfgs": ["debug", "release"], "cases": 40_000 if q else 1_000_000, "ms": 30_000 if q else 300_000},
-            {"sub": "random", "cfgs": ["miri"], "cases": 150 if q else 5_000, "ms": 40_000 if q else 600_000, "wall": 300 if q else 1500},
+            {"sub": "random", "cfgs": ["miri"], "cases": 150 if q else 5_000, "ms": 40_000 if q else 600_000, "wall": 600 if q else 1800},
         ] + ([] if q else [
             {"sub": "random", "cfgs": ["asan"], "cases": 300_000, "ms": 200_000},
         ]),
@@ -309,7 +309,7 @@ def c16(q):
         "jobs": [
             {"sub": "exhaustive16", "cfgs": ["debug", "release"], "cases": 1024, "ms": 0, "hang_ms": 120_000},
             {"sub": "random", "cfgs": ["debug", "release"], "cases": 400 if q else 20_000, "ms": 25_000 if q else 300_000, "hang_ms": 120_000},
-            {"sub": "random", "cfgs": ["miri"], "cases": 2 if q else 20, "ms": 40_000 if q else 300_000, "shards": 17, "lite": True, "wall": 300 if q else 900},
+            {"sub": "random", "cfgs": ["miri"], "cases": 2 if q else 20, "ms": 40_000 if q else 300_000, "shards": 17, "lite": True, "wall": 600 if q else 1200},
         ],
     }
 
